@@ -697,8 +697,20 @@ def fam_spatial(case):
                            _perm_list(n, pspec), owners, _group_pairs(n, 2))
 
 
+#  ways of fixing the recurrence criterion that do not depend on the order
+#  of the samples (the crafted unit-cube series are full of tied distances;
+#  the adaptive neighbourhood breaks ties by position and is not included)
+RECNET_VARIANTS = {
+    "threshold": None,
+    "rate": {"recurrence_rate": 0.45},
+    "local": {"local_recurrence_rate": 0.5},
+    "local-manhattan": {"local_recurrence_rate": 0.34},
+}
+
+
 def fam_recnet(case):
-    n, mask, widx, pspec = case
+    n, mask, widx, pspec = case[:4]
+    variant = case[4] if len(case) > 4 else "threshold"
     from ..refmodel import craft
     classes = _all_classes()
     cls = classes["RecurrenceNetwork"]
@@ -708,25 +720,38 @@ def fam_recnet(case):
         return {"viol": [], "evals": 0, "trivial": True,
                 "excluded": {"no unit-cube realisation of the graph": 1}}
     w = weights(n, widx) or [1.0] * n
+    par = RECNET_VARIANTS[variant] or {"threshold": craft.THRESHOLD}
+    metric = "manhattan" if variant.endswith("manhattan") else "supremum"
+    directed = False
+    if variant != "threshold":
+        b0 = cls(np.array(series), metric=metric, silence_level=3, **par)
+        A = np.asarray(b0.adjacency).astype(int).tolist()
+        directed = bool(b0.directed)
     W = link_attr(np.array(A), 1).tolist()
     pre = []
 
     def mk(perm, w_):
         p = perm if perm is not None else tuple(range(n))
-        net = cls(np.array(series)[list(p)], metric="supremum",
-                  threshold=craft.THRESHOLD, silence_level=3,
-                  node_weights=np.array(pv(w_, p), dtype=float))
+        net = cls(np.array(series)[list(p)], metric=metric,
+                  silence_level=3,
+                  node_weights=np.array(pv(w_, p), dtype=float), **par)
         if perm is None and not np.array_equal(np.asarray(net.adjacency),
                                                np.array(A)):
             pre.append(V("RecurrenceNetwork.adjacency:crafted",
                          "crafted series does not realise the graph",
                          net.adjacency, A))
+        if perm is not None and not np.array_equal(
+                np.asarray(net.adjacency), np.array(pA(A, p))):
+            pre.append(V("RecurrenceNetwork.adjacency:not-equivariant:"
+                         + variant, "the network of the re-ordered samples "
+                         "is not the re-ordered network (perm %s)" % (p,),
+                         net.adjacency, pA(A, p)))
         net.set_link_attribute(mt.LA, np.array(pA(W, p), dtype=float))
         return net
 
     r = _explore_object(
         "RecurrenceNetwork", lambda perm, variant: mk(perm, w), ("rebuild",),
-        n, False, A, _perm_list(n, pspec),
+        n, directed, A, _perm_list(n, pspec),
         ("RecurrenceNetwork", "RecurrencePlot", "Network"),
         _group_pairs(n, 2), jitter_build=lambda s: mk(None, _jit(w, s)))
     r["viol"] = pre + r["viol"]
@@ -1029,8 +1054,12 @@ def run(ctx):
     for (n, d, m) in und:
         for ps in _pspecs(n, thorough, 6):
             cases.append((n, m, 1, ps))
+            if n >= 4:
+                for var in ("rate", "local", "local-manhattan"):
+                    cases.append((n, m, 1, ps, var))
     ctx.explore("recnet", cases, desc="RecurrenceNetwork from a crafted "
-                "series with permuted rows")
+                "series with permuted rows; fixed threshold, fixed rate and "
+                "fixed local rate (tied distances)")
     # -- VisibilityGraph
     cases = []
     for n in (3, 4, 5):
